@@ -17,6 +17,18 @@ pub open spec fn is_err_kind<V>(r: Result<V, Error>, k: ErrorKind) -> bool {
     }
 }
 
+// unknown endpoints are appended source first (a self-loop creates one node)
+pub open spec fn names_after<T>(s: Seq<T>, knows_u: bool, knows_v: bool, u: T, v: T) -> Seq<T> {
+    let s1 = if knows_u { s } else { s.push(u) };
+    if knows_v || (!knows_u && v == u) { s1 } else { s1.push(v) }
+}
+
+pub open spec fn spec_ordered<T: PartialOrd, A>(e: Edge<T, A>) -> Edge<T, A>
+    where T: Send
+{
+    if tgt(e.u, e.v) { Edge { u: e.v, v: e.u, attributes: e.attributes, weight: e.weight } } else { e }
+}
+
 // one empty row appended, existing rows untouched
 pub open spec fn rows_extended(old_rows: Seq<Vec<AdjacentNode>>, new_rows: Seq<Vec<AdjacentNode>>) -> bool {
     &&& new_rows.len() == old_rows.len() + 1
@@ -63,13 +75,12 @@ impl<T: Eq + PartialOrd + Send + Sync, A: Clone> Graph<T, A> {
         self.nodes_vec@[i as int].name
     }
 
-    // the stored edge names the nodes at positions (u, v); undirected edges are stored name-ordered
+    // the stored edge names the nodes at positions (u, v) (in either orientation when undirected)
     pub open spec fn edge_fits(&self, e: Edge<T, A>, u: usize, v: usize) -> bool {
         if self.specs.directed {
             e.u == self.name_of(u) && e.v == self.name_of(v)
         } else {
-            &&& (e.u == self.name_of(u) && e.v == self.name_of(v)) || (e.u == self.name_of(v) && e.v == self.name_of(u))
-            &&& !tgt(e.u, e.v)
+            (e.u == self.name_of(u) && e.v == self.name_of(v)) || (e.u == self.name_of(v) && e.v == self.name_of(u))
         }
     }
 
@@ -109,6 +120,20 @@ impl<T: Eq + PartialOrd + Send + Sync, A: Clone> Graph<T, A> {
     pub open spec fn duplicate_ignored(&self, e: Edge<T, A>) -> bool {
         self.existed(e) && !self.specs.multi_edges && self.specs.edge_dedupe_strategy == EdgeDedupeStrategy::KeepFirst
     }
+
+    // the call stores the edge (none of the refusing / ignoring rungs of the ladder applies)
+    pub open spec fn stores(&self, e: Edge<T, A>) -> bool {
+        !self.self_loop_refused(e) && !self.missing_refused(e) && !self.duplicate_refused(e) && !self.duplicate_ignored(e)
+    }
+
+    pub open spec fn names(&self) -> Seq<T> {
+        Seq::new(self.nodes_vec@.len(), |i: int| self.nodes_vec@[i].name)
+    }
+
+    // the form in which an edge is stored: as given when directed, name-ordered when undirected
+    pub open spec fn stored_form(&self, e: Edge<T, A>) -> Edge<T, A> {
+        if self.specs.directed { e } else { spec_ordered(e) }
+    }
 }
 
 // wf_estore only reads specs, the position-keyed store, n and the names at positions < n
@@ -135,6 +160,44 @@ pub proof fn lemma_estore_frame<T: Eq + PartialOrd + Send + Sync, A: Clone>(g0: 
         assert(g1.name_of(v) == g0.name_of(v));
         assert forall|k: int| 0 <= k < g1.pair_list(u, v).len() implies g1.edge_fits(*#[trigger] g1.pair_list(u, v)[k], u, v) by {
             assert(g0.edge_fits(*g0.pair_list(u, v)[k], u, v));
+        }
+    }
+}
+
+// wf_estore after the store changed at one canonical key only
+pub proof fn lemma_estore_after_store<T: Eq + PartialOrd + Send + Sync, A: Clone>(g1: Graph<T, A>, g2: Graph<T, A>, c0: usize, c1: usize)
+    requires
+        g1.wf_estore(),
+        g2.specs == g1.specs,
+        g2.n() == g1.n(),
+        forall|i: usize| i < g1.n() ==> #[trigger] g2.name_of(i) == g1.name_of(i),
+        forall|a: usize, b: usize| (a != c0 || b != c1) ==> #[trigger] g2.has_pair(a, b) == g1.has_pair(a, b),
+        forall|a: usize, b: usize| (a != c0 || b != c1) && g1.has_pair(a, b) ==> #[trigger] g2.pair_list(a, b) == g1.pair_list(a, b),
+        c0 < g1.n() && c1 < g1.n(),
+        !g1.specs.directed ==> c0 <= c1,
+        g2.has_pair(c0, c1) ==> ({
+            &&& g2.pair_list(c0, c1).len() > 0
+            &&& (!g2.specs.multi_edges ==> g2.pair_list(c0, c1).len() == 1)
+            &&& forall|k: int| 0 <= k < g2.pair_list(c0, c1).len() ==> g2.edge_fits(*#[trigger] g2.pair_list(c0, c1)[k], c0, c1)
+        }),
+    ensures
+        g2.wf_estore(),
+{
+    assert forall|u: usize, v: usize| #[trigger] g2.has_pair(u, v) implies ({
+        &&& u < g2.n() && v < g2.n()
+        &&& g2.pair_list(u, v).len() > 0
+        &&& (!g2.specs.multi_edges ==> g2.pair_list(u, v).len() == 1)
+        &&& (!g2.specs.directed ==> u <= v)
+        &&& forall|k: int| 0 <= k < g2.pair_list(u, v).len() ==> g2.edge_fits(*#[trigger] g2.pair_list(u, v)[k], u, v)
+    }) by {
+        if u != c0 || v != c1 {
+            assert(g1.has_pair(u, v));
+            assert(g2.pair_list(u, v) == g1.pair_list(u, v));
+            assert(g2.name_of(u) == g1.name_of(u));
+            assert(g2.name_of(v) == g1.name_of(v));
+            assert forall|k: int| 0 <= k < g2.pair_list(u, v).len() implies g2.edge_fits(*#[trigger] g2.pair_list(u, v)[k], u, v) by {
+                assert(g1.edge_fits(*g1.pair_list(u, v)[k], u, v));
+            }
         }
     }
 }
